@@ -148,9 +148,9 @@ func (r *Run) Eval() { r.Count("evaluations", 1) }
 // Distinct records a value in a named set of distinct things seen; the set
 // "nontrivial" feeds coverage.distinct_nontrivial.
 func (r *Run) Distinct(set, val string) {
-	if len(val) > 40 {
+	if len(val) > 160 {
 		h := sha256.Sum256([]byte(val))
-		val = hex.EncodeToString(h[:12])
+		val = val[:120] + "#" + hex.EncodeToString(h[:6])
 	}
 	r.mtx.Lock()
 	m := r.distinct[set]
@@ -294,6 +294,16 @@ func (r *Run) Finish() int {
 		dist[k] = len(v)
 	}
 	cov["distinct_sets"] = dist
+	small := map[string][]string{}
+	for k, v := range r.distinct {
+		if len(v) <= 12 && k != "nontrivial" {
+			for x := range v {
+				small[k] = append(small[k], x)
+			}
+			sort.Strings(small[k])
+		}
+	}
+	cov["distinct_values"] = small
 	cov["evaluations"] = r.counters["evaluations"]
 	cov["distinct_nontrivial"] = len(r.distinct["nontrivial"])
 	cov["rule"] = r.rule
@@ -545,4 +555,16 @@ func tail(s string, n int) string {
 		return s[len(s)-n:]
 	}
 	return s
+}
+
+// WriteObservation stores a non-verdict observation (e.g. a panic seen while
+// checking another property) under the replay directory for later inspection.
+func WriteObservation(prop, name string, v interface{}) {
+	dir := filepath.Join(replayDir(), prop, "observations")
+	os.MkdirAll(dir, 0755)
+	b, err := json.MarshalIndent(v, "", " ")
+	if err != nil {
+		b = []byte(fmt.Sprintf("%+v", v))
+	}
+	ioutil.WriteFile(filepath.Join(dir, sanitize(name)+".json"), b, 0644)
 }
